@@ -566,15 +566,24 @@ def mon_c03(sc, res):
                     fails.append("step %d: routed id %s was used before" % (si, show(rid)))
                 ever.add(rid)
                 match = None
+                scored = []
                 for i, (c, r) in enumerate(cands):
                     params = cget(r, b"params")
                     if cget(params, b"path") != meth:
                         continue
                     isset = cget(r, b"method") == b"set"
                     want = ("obj", [(b"value", cget(params, b"value"))]) if isset else (cget(params, b"args") if cget(params, b"args") is not None else ("obj", []))
-                    if cget(v, b"params") == want:
-                        match = i
-                        break
+                    if cget(v, b"params") != want:
+                        continue
+                    oid = cget(r, b"id")
+                    # the routed id starts with the caller's id string ("(null)" for a number); a request that was answered with an
+                    # error in this step was not routed
+                    prefix = (oid + b"_") if isinstance(oid, bytes) else (b"(null)_" if is_id(oid) else b"")
+                    refused = is_id(oid) and any(d2 == c and is_response(v2) and has_member(v2, b"error") and cget(v2, b"id") == oid
+                                                 for d2, ok2, v2 in sends if not (isinstance(v2, tuple) and v2 and v2[0] == "unparsable"))
+                    scored.append((0 if (rid.startswith(prefix) and not refused) else (1 if not refused else 2), i))
+                if scored:
+                    match = sorted(scored)[0][1]
                 if match is None:
                     fails.append("step %d: routed message %s to c%d corresponds to no set/call of this step with equal path and payload" % (si, show(v)[:160], d))
                     continue
